@@ -317,6 +317,94 @@ theorem open_reports_register (m : Orders) (c : Nat) (q p : Rat) (rs : List Open
           (by simpa [snapOpen, Lifecycle.step, ht] using hstep)
         simpa [run, deliver, upd, toMsg, passes, ht] using this
 
+/-- the exchange-confirmed order details held for an id, whatever in-flight marker wraps them -/
+def metaOf (st : Option Active) : Option Open := st.bind Active.openMeta
+
+/-- states in which everything held came from the exchange: untracked, open, or cancel-in-flight
+around a confirmed open -/
+def Confirmed (st : Option Active) : Prop :=
+  st = none ∨ ∃ o, st = some (.opn o) ∨ st = some (.cancelInFlight (some o))
+
+/-- an op of the mixed history: an open report (something left to fill) or a cancel request sent -/
+inductive OrdEv where
+  | report (o : Open)
+  | cancelSent
+
+def OrdEv.toOp (c : Nat) (q p : Rat) : OrdEv → Op
+  | .report o => snapOpen c q p o
+  | .cancelSent => .recCancel c
+
+def reportsOf : List OrdEv → List Open
+  | [] => []
+  | .report o :: rest => o :: reportsOf rest
+  | .cancelSent :: rest => reportsOf rest
+
+/-- Cancel requests sent in between — once or repeatedly — never disturb the register: for any
+interleaving of open reports and cancel requests on one order, the confirmed details held (inside
+`Open` or inside `CancelInFlight`) are those of the `<=` register over the reports alone, so they
+carry the greatest delivered timestamp and never roll back. -/
+theorem open_reports_with_cancels_register (m : Orders) (c : Nat) (q p : Rat) (evs : List OrdEv)
+    (hrem : ∀ o ∈ reportsOf evs, remZero q o = false) (hc : Confirmed (stateOf m c)) :
+    metaOf (stateOf (run m (evs.map (OrdEv.toOp c q p))) c) =
+      (deliver false ((metaOf (stateOf m c)).map toMsg) ((reportsOf evs).map toMsg)).map (·.2) ∧
+    Confirmed (stateOf (run m (evs.map (OrdEv.toOp c q p))) c) := by
+  induction evs generalizing m with
+  | nil =>
+    refine ⟨?_, hc⟩
+    simp only [List.map_nil, run, List.foldl_nil, reportsOf, deliver]
+    cases metaOf (stateOf m c) <;> simp [toMsg]
+  | cons ev evs ih =>
+    simp only [List.map_cons, run, List.foldl_cons]
+    cases ev with
+    | cancelSent =>
+      have hstep := step_refines m (.recCancel c) c rfl
+      simp only [Lifecycle.stepOp, Op.input, ↓reduceIte] at hstep
+      have hmeta : metaOf (stateOf (step m (.recCancel c)) c) = metaOf (stateOf m c) ∧
+          Confirmed (stateOf (step m (.recCancel c)) c) := by
+        rw [hstep]
+        rcases hc with h0 | ⟨o, h1 | h1⟩
+        · rw [h0]; exact ⟨rfl, Or.inl rfl⟩
+        · rw [h1]; exact ⟨rfl, Or.inr ⟨o, Or.inr rfl⟩⟩
+        · rw [h1]; exact ⟨rfl, Or.inr ⟨o, Or.inr rfl⟩⟩
+      have := ih (step m (.recCancel c)) (fun o ho => hrem o (by simpa [reportsOf] using ho)) hmeta.2
+      simp only [OrdEv.toOp, run, reportsOf] at this ⊢
+      rw [hmeta.1] at this
+      exact this
+    | report o =>
+      have hz := hrem o (by simp [reportsOf])
+      have hstep := step_refines m (snapOpen c q p o) c rfl
+      simp only [snapOpen, Lifecycle.stepOp, Op.input, ↓reduceIte, hz] at hstep
+      have hmeta : metaOf (stateOf (step m (snapOpen c q p o)) c) =
+            (upd false ((metaOf (stateOf m c)).map toMsg) (toMsg o)).map (·.2) ∧
+          Confirmed (stateOf (step m (snapOpen c q p o)) c) := by
+        simp only [snapOpen]
+        rw [hstep]
+        rcases hc with h0 | ⟨h, h1 | h1⟩
+        · rw [h0]; exact ⟨by simp [Lifecycle.step, metaOf, Active.openMeta, upd, toMsg], Or.inr ⟨o, Or.inl rfl⟩⟩
+        · rw [h1]
+          by_cases ht : h.t ≤ o.t
+          · exact ⟨by simp [Lifecycle.step, metaOf, Active.openMeta, upd, toMsg, passes, ht],
+              Or.inr ⟨o, Or.inl (by simp [Lifecycle.step, ht])⟩⟩
+          · exact ⟨by simp [Lifecycle.step, metaOf, Active.openMeta, upd, toMsg, passes, ht],
+              Or.inr ⟨h, Or.inl (by simp [Lifecycle.step, ht])⟩⟩
+        · rw [h1]
+          by_cases ht : h.t ≤ o.t
+          · exact ⟨by simp [Lifecycle.step, metaOf, Active.openMeta, upd, toMsg, passes, ht],
+              Or.inr ⟨o, Or.inr (by simp [Lifecycle.step, ht])⟩⟩
+          · exact ⟨by simp [Lifecycle.step, metaOf, Active.openMeta, upd, toMsg, passes, ht],
+              Or.inr ⟨h, Or.inr (by simp [Lifecycle.step, ht])⟩⟩
+      have := ih (step m (snapOpen c q p o)) (fun x hx => hrem x (by simp [reportsOf, hx])) hmeta.2
+      simp only [OrdEv.toOp, run, reportsOf, List.map_cons, deliver, List.foldl_cons] at this ⊢
+      rw [hmeta.1] at this
+      -- re-wrap the register value as a message
+      have hwrap : ((upd false ((metaOf (stateOf m c)).map toMsg) (toMsg o)).map (·.2)).map toMsg =
+          upd false ((metaOf (stateOf m c)).map toMsg) (toMsg o) := by
+        cases metaOf (stateOf m c) with
+        | none => simp [upd, toMsg]
+        | some h => by_cases ht : passes false h.t o.t = true <;> simp [upd, toMsg, ht]
+      rw [hwrap] at this
+      exact this
+
 /-! Non-vacuity -/
 example : deliver false none [((3 : Int), (1 : Nat)), (5, 2), (4, 3), (5, 4), (1, 5)] = some (5, 4) := by decide
 example : deliver true none [((3 : Int), (1 : Nat)), (5, 2), (4, 3), (5, 4), (1, 5)] = some (5, 2) := by decide
